@@ -276,6 +276,8 @@ pub fn evaluate(ctx: &Ctx, wd: &WorkDir, oracle_kind: &str, case: &Case, lkm: bo
                             "hash seed"
                         } else if env_a.entropy == env_b.entropy && env_a.sched != env_b.sched && env_a.io == env_b.io {
                             "thread schedule"
+                        } else if env_a.entropy == env_b.entropy && env_a.sched == env_b.sched && env_b.io.starts_with("0;clock=") && !env_b.pipe && !env_b.stale_out {
+                            "the clock"
                         } else if env_a.entropy == env_b.entropy && env_a.sched == env_b.sched {
                             "syscall behaviour"
                         } else {
@@ -442,6 +444,9 @@ fn gen_env(seed: u64) -> Env {
         let rate = |r: &mut Rng, v: u64| if r.chance(30) { 0 } else { v };
         format!("{}:{}:{}:{}:{}", r.below(1 << 32), rate(&mut r, 15), rate(&mut r, 8), rate(&mut r, 15), rate(&mut r, 8))
     };
+    // a third of the runs read a simulated clock that jumps forward by up to three hours per reading
+    // (the analyzer itself never looks at the clock; a change that makes results depend on time would)
+    let io = if r.chance(33) { format!("{io};clock={}", r.below(1 << 32)) } else { io };
     // a fifth of the runs receive the extractor output through a pipe instead of a regular file
     let pipe = r.chance(20);
     // a third of the runs find an older, longer result file at the --out path
@@ -455,6 +460,11 @@ fn all_checks(known: &Known, lkm: bool) -> Vec<String> {
 
 fn gen_selection(r: &mut Rng, known: &Known, lkm: bool) -> Selection {
     let pool = all_checks(known, lkm);
+    // now and then a list that names no check at all (`--partial ""`, `--partial ","`): an empty
+    // shell variable, a trailing comma left over; such a run executes nothing
+    if r.chance(4) {
+        return Selection::Partial(vec![String::new(); r.below(3) as usize]);
+    }
     match r.below(10) {
         0..=2 => Selection::Default,
         3..=5 => {
@@ -502,6 +512,9 @@ struct Agg {
     workloads: u64,
     sched_steps: u64,
     io: [u64; 7],
+    clock_runs: u64,
+    clock_reads: u64,
+    clock_jumps: u64,
     event_hashes: HashSet<u64>,
     distinct: HashSet<u64>,
     nontrivial: HashSet<u64>,
@@ -545,6 +558,11 @@ fn account_run(agg: &mut Agg, wl_hash: u64, mode: &CliMode, env: &Env, out: &Run
         for (k, v) in [s.getrandom, s.read, s.read_short, s.read_eintr, s.write, s.write_short, s.write_eintr].iter().enumerate() {
             agg.io[k] += v;
         }
+        agg.clock_reads += s.clock_reads;
+        agg.clock_jumps += s.clock_jumps;
+    }
+    if env.io.contains(";clock=") {
+        agg.clock_runs += 1;
     }
     if let Some(e) = &out.events {
         agg.sched_steps += e.sched_steps;
@@ -585,6 +603,9 @@ fn merge(into: &mut Agg, from: Agg) {
     for k in 0..7 {
         into.io[k] += from.io[k];
     }
+    into.clock_runs += from.clock_runs;
+    into.clock_reads += from.clock_reads;
+    into.clock_jumps += from.clock_jumps;
     into.event_hashes.extend(from.event_hashes);
     into.distinct.extend(from.distinct);
     into.nontrivial.extend(from.nontrivial);
@@ -805,6 +826,10 @@ fn simplify_case(ctx: &Ctx, wd: &WorkDir, oracle_kind: &str, case: &Case, lkm: b
     let simpler_envs = |e: &Env| -> Vec<Env> {
         let mut v = Vec::new();
         if e.io != "0" { v.push(Env { io: "0".into(), ..e.clone() }); }
+        if let Some(p) = e.io.find(";clock=") {
+            v.push(Env { io: e.io[..p].to_string(), ..e.clone() });
+            if !e.io.starts_with("0;") { v.push(Env { io: format!("0{}", &e.io[p..]), ..e.clone() }); }
+        }
         if e.pipe { v.push(Env { pipe: false, ..e.clone() }); }
         if e.stale_out { v.push(Env { stale_out: false, ..e.clone() }); }
         if e.sched != "sticky" { v.push(Env { sched: "sticky".into(), ..e.clone() }); }
@@ -861,13 +886,14 @@ fn simplify_case(ctx: &Ctx, wd: &WorkDir, oracle_kind: &str, case: &Case, lkm: b
 /// Turn a seeded I/O fault stream into the explicit list that was injected, then drop faults.
 fn explicit_io(ctx: &Ctx, wd: &WorkDir, oracle_kind: &str, case: &Case, lkm: bool, class: &str, budget: &mut usize) -> Case {
     let Case::Single { mode, env } = case else { return case.clone() };
-    if env.io == "0" || env.io.starts_with("list:") {
+    let clock_suffix = env.io.find(";clock=").map(|p| env.io[p..].to_string()).unwrap_or_default();
+    if env.io == "0" || env.io.starts_with("list:") || env.io.starts_with("0;") {
         return case.clone();
     }
     let Err((_, outs)) = evaluate(ctx, wd, oracle_kind, case, lkm) else { return case.clone() };
     let Some(stats) = outs[0].stats.as_ref() else { return case.clone() };
     let mut faults: Vec<String> = stats.injected.split(',').filter(|s| !s.is_empty()).map(|s| s.to_string()).collect();
-    let mk = |f: &[String]| Case::Single { mode: mode.clone(), env: Env { io: format!("list:{}", f.join(",")), ..env.clone() } };
+    let mk = |f: &[String]| Case::Single { mode: mode.clone(), env: Env { io: format!("list:{}{clock_suffix}", f.join(",")), ..env.clone() } };
     if !matches!(evaluate(ctx, wd, oracle_kind, &mk(&faults), lkm), Err((v, _)) if v.class == class) {
         return case.clone();
     }
@@ -903,7 +929,7 @@ pub fn run_check(prop: &str, tier: &str, workloads_override: Option<u64>, dump: 
         ("C22", "thorough") => (20_000, 4),
         ("C22", _) => (600, 2),
         ("C23", "thorough") => (25_000, 8),
-        (_, _) => (1000, 4),
+        (_, _) => (2000, 4),
     };
     if let Some(n) = workloads_override {
         workloads = n;
@@ -1074,10 +1100,13 @@ pub fn run_check(prop: &str, tier: &str, workloads_override: Option<u64>, dump: 
     faults.insert("hash_seed_perturbation_runs".into(), json!(total.runs));
     faults.insert("scheduler_kinds".into(), json!(total.sched_kinds));
     faults.insert("extractor_output_delivered_through_a_pipe_runs".into(), json!(total.pipe_runs));
+    faults.insert("runs_under_a_jumping_simulated_clock".into(), json!(total.clock_runs));
+    faults.insert("clock_readings_during_the_runs".into(), json!(total.clock_reads));
+    faults.insert("clock_jumps_injected".into(), json!(total.clock_jumps));
     let mut extra = serde_json::Map::new();
     extra.insert("workloads".into(), json!(total.workloads));
     extra.insert("runs_per_hour".into(), json!((total.runs as f64 / wall * 3600.0) as u64));
-    extra.insert("simulated_time".into(), json!(format!("{} scheduler steps, {} read/write calls; no clock exists on this path", total.sched_steps, total.io[1] + total.io[4])));
+    extra.insert("simulated_time".into(), json!(format!("{} scheduler steps, {} read/write calls; the (simulated, jumping) clock was read {} times in {} runs that had one (once per run by the simulation runtime; the analyzer has no clock reading on this path)", total.sched_steps, total.io[1] + total.io[4], total.clock_reads, total.clock_runs)));
     extra.insert("fault_kinds".into(), Value::Object(faults));
     extra.insert("distinct_interleavings".into(), json!(total.event_hashes.len()));
     extra.insert("runs_with_more_than_one_thread".into(), json!(total.multi_thread_runs));
